@@ -18,5 +18,7 @@ for d in seeded/${1:-}*/; do
   elif echo "$out" | grep -q "HARNESS ERROR"; then res="harness-error"
   elif echo "$out" | grep -q -- "-> exit 0"; then res=MISSED
   else res="unknown"; fi
+  exp=$(python3 -c "import json; print(json.load(open('$d/meta.json'))['detection'].get('expected','caught'))")
+  if [ "$exp" = "missed" ] && [ "$res" = "MISSED" ]; then res="missed-as-documented"; fi
   echo "$id $prop $res $(echo "$out" | grep -o 'new_violation_classes=[0-9]*' | tail -1)"
 done
